@@ -24,7 +24,7 @@ ASSUMPTIONS = ["an instance's key is recovered from the element values it reads 
                "vp/model.py standalone simulation defines 'the mapped function run alone'; boundary inputs already valid at "
                "instance start are sampled (read as ticked) at that cycle, per the documented sampled-start rule",
                "g++-12 -O1 build of the working tree with harness-side shims"]
-FLOORS = {"explicit_key_set_epochs": {"quick": 150, "thorough": 2500}, "explicit_keys_mapped_before_their_element_exists": {"quick": 60, "thorough": 1000}, "dictionary_repoints_with_surviving_instances": {"quick": 60, "thorough": 900}, "epochs_checked": {"quick": 1200, "thorough": 20000}, "readd_epochs": {"quick": 150, "thorough": 2500},
+FLOORS = {"explicit_key_set_epochs": {"quick": 100, "thorough": 2500}, "explicit_keys_mapped_before_their_element_exists": {"quick": 60, "thorough": 1000}, "dictionary_repoints_with_surviving_instances": {"quick": 60, "thorough": 900}, "epochs_checked": {"quick": 1200, "thorough": 20000}, "readd_epochs": {"quick": 150, "thorough": 2500},
           "instance_runs_compared": {"quick": 8000, "thorough": 120000}, "output_ticks_compared": {"quick": 2000, "thorough": 35000},
           "timer_runs_in_instances": {"quick": 300, "thorough": 5000}, "map_key_throws": {"quick": 50, "thorough": 800}, "two_dictionary_epochs": {"quick": 80, "thorough": 1200},
           "key_left_one_dictionary_only": {"quick": 40, "thorough": 600},
